@@ -888,6 +888,18 @@ class LoopInterp:
                 return None
             st.L[t['dest']['l']] = En('Option', 'Some', SlotRef(lf_add(ss.hi, -1), 'T', p.endswith('last_mut') and ss.mut))
             return t['t']
+        elif p == 'core::bool::<impl bool>::then' and len(args) == 2 and isinstance(args[0], Cmp):
+            # cond.then(f): Some(f()) exactly when cond holds
+            if t['t'] is None or t['dest']['p']:
+                raise CUnanalysable('then at %s' % where)
+            s_none = st.fork()
+            if self.apply_cmp(s_none.dbm, args[0], False):
+                s_none.L[t['dest']['l']] = En('Option', 'None', None)
+                work.append((s_none, t['t'], False))
+            if not self.apply_cmp(st.dbm, args[0], True):
+                return None
+            st.L[t['dest']['l']] = En('Option', 'Some', self.apply_closure(st, t['args'][1], Opaque('no argument'), where))
+            return t['t']
         elif p == 'core::option::Option::<T>::map' and len(args) == 2 and isinstance(args[0], CheckedSub):
             # a.checked_sub(b).map(f): Some(f(a - b)) exactly when b <= a
             cs = args[0]
@@ -1113,9 +1125,19 @@ def loop_rules(ctx, crate, body, info, conv, label):
     # the roles must match the outer function's: produced counter feeds set_len, etc.
     info['roles'] = li.roles
     heads = find_loop_head(body)
-    if len(heads) != 1:
+    if len(heads) == 0:
+        # no loop of its own: the iteration may be `(0..len).try_for_each(|index| …)`
+        exits = closure_driven_loop(ctx, crate, body, li, info, label)
+        heads = None
+    elif len(heads) != 1:
         raise CUnanalysable('expected exactly one loop in the conversion closure, found heads %s' % sorted(heads))
-    head = heads.pop()
+    if heads is not None:
+        exits = iterate_in_body(li, body, heads.pop())
+    judge_exits(ctx, body, li, exits, conv, label)
+
+
+def iterate_in_body(li, body, head):
+    li.loop_head = head
     # entry reaches the head without touching counters or the slice (it may set up a `start..end` iterator)
     ranges = li.prologue(head)
     assume = []
@@ -1147,7 +1169,123 @@ def loop_rules(ctx, crate, body, info, conv, label):
             assume = keep
         li.quiet = False
         li.discharged('O1', body.span(), 'loop driven by 0..len: position facts kept by every iteration: %s' % ', '.join(assume))
-    exits = li.run(head, ranges, assume)
+    return li.run(head, ranges, assume)
+
+
+def closure_driven_loop(ctx, crate, body, li, info, label):
+    """The conversion closure hands the iteration to `Iterator::try_for_each` over `0..len` with a closure
+    taking the index.  One call of that closure is one iteration: it is interpreted from its entry with the
+    index `i` (a symbol, `i < len`), the facts about `i` kept Houdini-style as for a range-driven `for`.
+    A return of `Ok(())` / `Continue` is the way round the loop (next index `i + 1`), any other return leaves
+    the loop with a failure; exhaustion of the range (`len <= i`) is the successful exit."""
+    defs = local_defs(body)
+    driver = None
+    for bb, t in body.calls():
+        dp = callee_decl_path(t) or ''
+        if dp.endswith('Iterator::try_for_each') and len(t['args']) == 2:
+            driver = (bb, t)
+    if driver is None:
+        raise CUnanalysable('expected exactly one loop in the conversion closure, found none')
+    bb_d, t_d = driver
+    # the prologue runs up to the block of the driver call
+    li.prologue(bb_d)
+    st0 = LoopState()
+    st0.cells = {li.roles['p']: ('0', 0), li.roles['q']: ('0', 0)}
+    st0.L.update(li.entry_locals or {})
+    for s in body.blocks[bb_d]['stmts']:
+        if s['k'] == 'assign':
+            li.assign(st0, s['place'], li.rvalue(st0, s['rv'], fmt_span(s.get('span'))), fmt_span(s.get('span')))
+    rng = li.operand(st0, t_d['args'][0])
+    if not isinstance(rng, RangeIt) or rng.start != ('0', 0) or rng.end != ('n', 0):
+        raise CUnanalysable('the iteration is not over 0..len (%r)' % (rng,))
+    cl = trace_value(body, defs, t_d['args'][1])[-1]
+    if not (cl[0] == 'rv' and cl[1].get('ak') == 'closure'):
+        raise CUnanalysable('cannot see the closure handed to try_for_each')
+    inner = crate.lookup(cl[1]['closure'])
+    if inner is None or find_loop_head(inner):
+        raise CUnanalysable('the closure handed to try_for_each has a loop of its own')
+    upvars = [li.operand(st0, f) for f in cl[1]['fields']]
+    # after the driver call the closure only returns its answer
+    after = body.reachable(t_d['t'], unwind=False) if t_d['t'] is not None else set()
+    for bb, t in body.calls():
+        if bb in after and not ((callee_path(t) or '').endswith('Try>::branch') or (callee_path(t) or '').endswith('::from_residual')):
+            raise CUnanalysable('the conversion closure does more after the iteration (%s)' % callee_path(t))
+    sub = LoopInterp(ctx, inner, [], None, None, label)
+    sub.roles = li.roles
+    sub.crate = crate
+    sub.upvars = upvars
+    sub.obl = li.obl
+
+    def one_iteration(assume):
+        st = LoopState()
+        st.cells = {li.roles['p']: ('p', 0), li.roles['q']: ('q', 0)}
+        d = st.dbm
+        d.assume_le(('0', 0), ('p', 0))
+        d.assume_le(('p', 0), ('q', 0))
+        d.assume_le(('q', 0), ('n', 0))
+        d.assume_le(('n', 0), (MAXS, 0))
+        d.assume_lt(('i', 0), ('n', 0))          # the range yields i only while i < len
+        for c in assume:
+            apply_candidate(d, c, ('i', 0), ('p', 0), ('q', 0))
+        st.L = {1: Opaque('closure env'), 2: Num(('i', 0))}
+        sub.exits = []
+        work = [(st, 0)]
+        steps = 0
+        while work:
+            s, bb = work.pop()
+            while True:
+                steps += 1
+                if steps > 20000:
+                    raise CUnanalysable('path explosion')
+                s.trace.append(bb)
+                w2 = []
+                nxt = sub.block(s, bb, w2)
+                for (s2, b2, _f) in w2:
+                    work.append((s2, b2))
+                if nxt is None:
+                    break
+                bb = nxt
+        out = []
+        for kind, s, bb in sub.exits:
+            if kind == 'return':
+                v = s.L.get(0)
+                cont = isinstance(v, En) and v.variant in ('Ok', 'Continue')
+                out.append(('back' if cont else 'return', s, bb))
+            else:
+                out.append((kind, s, bb))
+        return out
+
+    assume = list(CANDIDATES)
+    sub.quiet = True
+    li.quiet = True
+    for _ in range(len(CANDIDATES) + 1):
+        ex = one_iteration(assume)
+        keep = [c for c in assume if all(holds_candidate(s.dbm, c, ('i', 1), s.cells[li.roles['p']], s.cells[li.roles['q']]) for k, s, bb in ex if k == 'back')]
+        if keep == assume:
+            break
+        assume = keep
+    sub.quiet = False
+    li.quiet = False
+    li.discharged('O1', inner.span(), 'iteration handed to try_for_each over 0..len: position facts kept by every iteration: %s' % ', '.join(assume))
+    exits = one_iteration(assume)
+    # the range is exhausted: the successful way out
+    st = LoopState()
+    st.cells = {li.roles['p']: ('p', 0), li.roles['q']: ('q', 0)}
+    d = st.dbm
+    d.assume_le(('0', 0), ('p', 0))
+    d.assume_le(('p', 0), ('q', 0))
+    d.assume_le(('q', 0), ('n', 0))
+    d.assume_le(('n', 0), (MAXS, 0))
+    d.assume_le(('n', 0), ('i', 0))
+    for c in assume:
+        apply_candidate(d, c, ('i', 0), ('p', 0), ('q', 0))
+    if d.consistent():
+        exits.append(('return', st, bb_d))
+    li.loop_in = inner
+    return exits
+
+
+def judge_exits(ctx, body, li, exits, conv, label):
     kinds = defaultdict(int)
     P, Q = li.roles['p'], li.roles['q']
     for kind, st, bb in exits:
@@ -1202,7 +1340,7 @@ def loop_rules(ctx, crate, body, info, conv, label):
     if kinds['unwind'] == 0:
         li.fail('O2', ['C09'], body.span(), 'no unwind exit found in the loop closure (the converter call must be able to unwind)', 'no-unwind')
     conv['obligations'] += li.obl
-    conv['loop'] = {'head': head, 'exits': dict(kinds), 'roles': {k: v for k, v in li.roles.items()}}
+    conv['loop'] = {'head': getattr(li, 'loop_head', None), 'exits': dict(kinds), 'roles': {k: v for k, v in li.roles.items()}}
     for o in ('O1', 'O2', 'O3', 'O4'):
         ctx.inst(o, '%s: %d discharged [%s]' % (o, len([x for x in li.obl if x['id'] == o]), label))
 
